@@ -15,7 +15,7 @@ from __future__ import annotations
 
 import ast
 import re
-from typing import Any, Dict, List, Optional, Set, Tuple
+from typing import Any, Dict, List, Optional, Sequence, Set, Tuple
 
 from engine.effects import mutations
 from engine.model import AnalysisError, Module, Program, class_fields, decorators, dotted, mro, resolve_method, walk_no_nested
@@ -101,6 +101,40 @@ def attrs_fields(mod: Module, clsname: str) -> List[Tuple[str, Optional[str]]]:
     return out
 
 
+def converter_kind(mod: Module, conv: str) -> str:
+    """'copying' if the attrs converter always builds a new container from its argument, 'direct' if some path hands the argument back
+    unchanged (the field then aliases whatever the caller passed), 'derived' otherwise.  Module-level aliases (`_conv = set`, also in the
+    run-time arm of `if TYPE_CHECKING: ... else: ...`) and small functions are resolved; nothing is assumed from the name."""
+    if conv in COPYING_CTORS:
+        return 'copying'
+    runtime_defs: List[ast.AST] = []
+
+    def scan(stmts: Sequence[ast.stmt]) -> None:
+        for st in stmts:
+            if isinstance(st, ast.If) and 'TYPE_CHECKING' in ast.unparse(st.test):
+                scan(st.orelse if ast.unparse(st.test) == 'TYPE_CHECKING' else st.body)     # the arm that runs
+                if not st.orelse and ast.unparse(st.test) == 'TYPE_CHECKING':
+                    continue
+            elif isinstance(st, ast.FunctionDef) and st.name == conv:
+                runtime_defs.append(st)
+            elif isinstance(st, ast.Assign) and any(isinstance(t, ast.Name) and t.id == conv for t in st.targets):
+                runtime_defs.append(st.value)
+    scan(mod.tree.body)
+    if not runtime_defs:
+        return 'derived'
+    d = runtime_defs[-1]
+    if isinstance(d, ast.Name):
+        return 'copying' if d.id in COPYING_CTORS else 'derived'
+    if isinstance(d, ast.FunctionDef):
+        params = {a.arg for a in d.args.args}
+        rets = [r.value for r in ast.walk(d) if isinstance(r, ast.Return) and r.value is not None]
+        if any(isinstance(r, ast.Name) and r.id in params for r in rets):
+            return 'direct'
+        if rets and all(isinstance(r, ast.Call) and (dotted(r.func) or '').split('.')[-1] in COPYING_CTORS for r in rets):
+            return 'copying'
+    return 'derived'
+
+
 def init_param_stores(mod: Module, clsname: str) -> Tuple[List[str], Dict[str, List[Tuple[str, str]]]]:
     """(positional parameter names, param -> [(field, how)]) where how in {'direct', 'copying', 'derived'}."""
     if is_attrs(mod, clsname):
@@ -109,8 +143,7 @@ def init_param_stores(mod: Module, clsname: str) -> Tuple[List[str], Dict[str, L
         for f, conv in flds:
             how = 'direct'
             if conv is not None:
-                cname = conv.lstrip('_').replace('conv_visgroups', 'set')
-                how = 'copying' if (conv in COPYING_CTORS or cname in COPYING_CTORS) else 'derived'
+                how = converter_kind(mod, conv)
             stores[f] = [(f, how)]
         return [f for f, _ in flds], stores
     init = mod.methods(clsname).get('__init__')
@@ -509,6 +542,24 @@ def run(ctx: Any, prog: Program) -> None:
                 ctx.check('C09.P3', not muts, modobj, muts[0].node if muts else fn,
                           (f'{cname}.{n} mutates an operand: {muts[0].kind} on `{muts[0].target}` - the operator is documented to produce a new value') if muts else 'operands untouched',
                           func=f'{cname}.{n}', text=f'{cname}.{n} pure' if not muts else f'{cname}.{n}: {muts[0].kind} {muts[0].target}')
+    # P3 (identity): an operator that produces a new value must not hand back one of its operands when the class is mutable -
+    # the caller may change the "new" value in place (v2 = v @ ang; v2 += off) and would change the operand with it
+    FROZEN_ONLY = {'FrozenVec', 'FrozenAngle', 'FrozenMatrix'}
+    n_ret = 0
+    for cname in ['VecBase', 'Vec', 'FrozenVec', 'AngleBase', 'Angle', 'FrozenAngle', 'MatrixBase', 'Matrix', 'FrozenMatrix']:
+        meths = {n: f for n, (o, f) in all_methods(prog, mt, cname).items() if o == cname}
+        for n in names:
+            if n not in meths:
+                continue
+            fn = meths[n]
+            params = [a.arg for a in fn.args.args]  # type: ignore[attr-defined]
+            for r in [x for x in walk_no_nested(fn) if isinstance(x, ast.Return) and x.value is not None]:
+                n_ret += 1
+                is_operand = isinstance(r.value, ast.Name) and r.value.id in params[:2]
+                ctx.check('C09.P3', not is_operand or cname in FROZEN_ONLY, mt, r, f'{cname}.{n} returns its operand `{ast.unparse(r.value)}` itself: for a mutable {cname.replace("Base", "")} the result of the operator is then the same '
+                          'object as the operand, and an in-place change of the result changes the operand', func=f'{cname}.{n}', text=f'{cname}.{n}: result is a new object')
+    if n_ret < 30:
+        raise AnalysisError(f'P3: only {n_ret} operator returns examined')
     # ---- P4 ------------------------------------------------------------------------------------------
     kc = kv.func('Keyvalues.copy')
     comps = [n for n in ast.walk(kc) if isinstance(n, ast.ListComp)]
@@ -528,6 +579,8 @@ def run(ctx: Any, prog: Program) -> None:
 
 
 MUTANTS = [
+    {'id': 'vec_matmul_identity_returns_operand', 'file': 'math.py', 'find': "        elif isinstance(other, AngleBase):\n            mat = Py_Matrix.from_angle(other)\n        else:\n            return NotImplemented\n        res = type(self)(self._x, self._y, self._z)", 'replace': "        elif isinstance(other, AngleBase):\n            if other._pitch == 0.0 and other._yaw == 0.0 and other._roll == 0.0:\n                return self\n            mat = Py_Matrix.from_angle(other)\n        else:\n            return NotImplemented\n        res = type(self)(self._x, self._y, self._z)", 'expect': 'C09.P3'},
+    {'id': 'visgroup_converter_returns_argument', 'file': 'vmf.py', 'find': "else:\n    _conv_visgroups = set\n", 'replace': "else:\n    def _conv_visgroups(x):\n        if isinstance(x, set):\n            return x\n        return set(x)\n", 'expect': 'C09.P2'},
     {'id': 'side_copy_shares_planes', 'file': 'vmf.py', 'find': "            [p.copy() for p in self.planes],", 'replace': "            list(self.planes),", 'expect': 'C09.P2'},
     {'id': 'side_copy_shares_uaxis', 'file': 'vmf.py', 'find': "            self.uaxis.copy(),\n            self.vaxis.copy(),", 'replace': "            self.uaxis,\n            self.vaxis.copy(),", 'expect': 'C09.P2'},
     {'id': 'side_copy_drops_lightmap', 'file': 'vmf.py', 'find': "            des_id,\n            self.lightmap,\n            self.smooth,", 'replace': "            des_id,\n            16,\n            self.smooth,", 'expect': 'C09.P1'},
